@@ -502,6 +502,10 @@ func (hs *serverHandshakeState) checkForResumption() bool {
 	if vers, ok := c.config.mutualVersion(hs.sessionState.vers); !ok || vers != hs.sessionState.vers {
 		return false
 	}
+	// Never resume a session for a different TLS version.
+	if c.vers != hs.sessionState.vers {
+		return false
+	}
 
 	cipherSuiteOk := false
 	// Check that the client is still offering the ciphersuite in the session.
